@@ -20,6 +20,11 @@ type SolverCfg struct {
 }
 
 var solvers = []SolverCfg{
+	// E-matching only: answers in well under a second when triggers suffice, and
+	// gives up quickly (unknown) when they do not
+	{Name: "z3-new/ematch", Path: "z3-new", Args: func(t int) []string {
+		return []string{"-smt2", "-in", fmt.Sprintf("-T:%d", t), "smt.mbqi=false", "smt.auto_config=false"}
+	}},
 	{Name: "z3-new", Path: "z3-new", Args: func(t int) []string { return []string{"-smt2", "-in", fmt.Sprintf("-T:%d", t)} }},
 	{Name: "z3", Path: "z3", Args: func(t int) []string { return []string{"-smt2", "-in", fmt.Sprintf("-T:%d", t)} }},
 	{Name: "cvc5", Path: "cvc5", Args: func(t int) []string {
